@@ -23,11 +23,11 @@ ELEMS = {
     "uint16[3]": TArr(INTS["uint16"], 3), "uint8*": TPtr(INTS["uint8"]),
 }
 NULLTERM_OK = {"uint8", "int16", "uint24", "int48", "uint64", "char", "wchar", "uleb128", "ileb128", "E8", "E16s", "F16", "E24", "inint_t"}
-# (label, count, consts)
+# (label, count, consts)   [n0-3600] passes through -3599 = -0xE0F, the value the library uses internally as its "to end of stream" marker
 FORMS = [
     ("[0]", 0, {}), ("[1]", 1, {}), ("[3]", 3, {}),
     ("[n0]", "n0", {}), ("[n0*2]", "n0*2", {}), ("[n0-2]", "n0-2", {}), ("[K]", "K", {"K": 2}), ("[K+n0]", "K+n0", {"K": 2}),
-    ("[ak]", "ak", {}), ("[ak*2-n0]", "ak*2-n0", {}), ("[ak]#ak=3", "ak", {"ak": 3}), ("[ak+K]#ak=3", "ak+K", {"ak": 3, "K": 1}), ("[2-3]", "2-3", {}), ("[K-3]", "K-3", {"K": 2}), ("[K-K]", "K-K", {"K": 2}), ("[n0]#n0=7", "n0", {"n0": 7}), ("[2+n0*K]", "2+n0*K", {"K": 3}), ("[]", None, {}), ("[EOF]", EOF, {}),
+    ("[ak]", "ak", {}), ("[ak*2-n0]", "ak*2-n0", {}), ("[ak]#ak=3", "ak", {"ak": 3}), ("[ak+K]#ak=3", "ak+K", {"ak": 3, "K": 1}), ("[n0-3600]", "n0-3600", {}), ("[2-3]", "2-3", {}), ("[K-3]", "K-3", {"K": 2}), ("[K-K]", "K-K", {"K": 2}), ("[n0]#n0=7", "n0", {"n0": 7}), ("[2+n0*K]", "2+n0*K", {"K": 3}), ("[]", None, {}), ("[EOF]", EOF, {}),
 ]
 INNER_DIMS = [("[2][3]", (2, 3)), ("[n0][2]", ("n0", 2)), ("[2][n0]", (2, "n0")), ("[3][1]", (3, 1)), ("[EOF][n0]", (EOF, "n0")), ("[EOF][2]", (EOF, 2))]
 
